@@ -201,6 +201,20 @@ def run_history_case(case):
         out.append(('solve', 'same as twin', 'differs', 'solution differs from the canonical twin'))
         return out
     out += check_export(m, twin, amap, pref, case.get('export_options', not hist and len(pref) <= 1))
+    if not hist and not out:
+        # a preference added to ONE instance is that instance's: the class declaration and later instances keep the declared list
+        declared = list(pref)
+        try:
+            m.preferred_names.append('late_preference')
+            m.aliases['late_alias'] = VARS[0]
+            later = cls(list(span), strict=strict, **dict(INIT))
+            if list(cls.PREFERRED_NAMES) != declared or list(later.preferred_names) != declared or 'late_alias' in later.aliases or 'late_alias' in cls.ALIASES:
+                out.append(('class-declaration-changed', declared, [list(cls.PREFERRED_NAMES), list(later.preferred_names), sorted(later.aliases)],
+                            'editing one instance\'s preferred names / aliases changed the class declaration or a later instance'))
+        finally:
+            if list(cls.PREFERRED_NAMES) != declared:
+                cls.PREFERRED_NAMES[:] = declared
+            cls.ALIASES.pop('late_alias', None)
     return out
 
 
